@@ -45,3 +45,6 @@ Proof. destruct r; simpl; intros H; [eauto | discriminate]. Qed.
 Ltac bind_inv H :=
   let a := fresh "x" in let H1 := fresh "H" in let H2 := fresh "H" in
   apply bind_ok in H; destruct H as (a & H1 & H2).
+
+(** Split conjunctions only. *)
+Ltac splits := repeat match goal with |- _ /\ _ => split end.
